@@ -12,7 +12,10 @@ pub proof fn lemma_xor_involution(a: Seq<u8>, k: Seq<u8>)
 /// unframing a frame gives the message back, for EVERY message length (also 0, and > 32)
 pub proof fn lemma_unframe_frame(m: Seq<u8>)
     requires m.len() <= usize::MAX,
-    ensures sc_unframe(sc_frame(m)) == Some(m)
+    ensures sc_unframe(sc_frame(m)) == Some(m),
+        // ... and the prefix of a frame is the canonical encoding of the message length
+        leb_peek(sc_frame(m)) == Some(leb(m.len()).len()), leb_decode(sc_frame(m)) == m.len(),
+        sc_frame(m).subrange(0, leb(m.len()).len() as int) == leb(m.len()),
 {
     let l = leb(m.len());
     let body = l + m;
